@@ -773,3 +773,11 @@ func Mix(seed int64, parts ...int64) int64 {
 	}
 	return int64(h & 0x7fffffffffffffff)
 }
+
+// NewTestCtx and Report support ad-hoc debugging of monitors from go test.
+func NewTestCtx(prop string) *Ctx {
+	c := newCtx(prop, "quick", 1, os.TempDir())
+	c.Verbose = true
+	return c
+}
+func (c *Ctx) Report() *Report { return c.finish() }
